@@ -900,6 +900,23 @@ func runC09(res *Result, tier string, seed int64, replay string) {
 		noop(withHead(mk(tag, "zz9")), find, "css-class", cssWinner("zz9", ""), "tag-default", informative)
 		noop(withHead(mk("mj-all", "zz9")), find, "css-class", cssWinner("", "zz9"), "mj-all", informative)
 		noop(withHead(mk("mj-all", "zz8"), mk(tag, "zz9")), find, "css-class", cssWinner("zz9", "zz8"), "tag-default>mj-all", informative)
+		// … also for an element that names mj-classes which define NO css-class (a defined class with other attributes, an
+		// undefined one): the class level supplies nothing, the head default still reaches the element
+		for ci, clsDef := range []*Node{(&Node{Tag: "mj-class"}).Set("name", "big").Set("data-note", "x"), nil} {
+			mkDoc := func(kids ...*Node) *Node {
+				if clsDef != nil {
+					kids = append(kids, clsDef)
+				}
+				d := withHead(kids...)
+				if e := find(d); e != nil {
+					e.Set("mj-class", "big")
+				}
+				return d
+			}
+			lv := fmt.Sprintf("(class-without-css-class/%d)", ci)
+			noop(mkDoc(mk(tag, "zz9")), find, "css-class", cssWinner("zz9", ""), "tag-default"+lv, informative)
+			noop(mkDoc(mk("mj-all", "zz9")), find, "css-class", cssWinner("", "zz9"), "mj-all"+lv, informative)
+		}
 	}
 	// whole documents
 	n := 120
